@@ -410,7 +410,23 @@ func Run(sink ribdrv.Sink, c Cfg) (hangs int, err error) {
 		sink.Emit(e)
 	}
 	// quiescent state
-	id, master := srv.VerifElection()
+	// reading the election state takes the server's locks: a wedged server must not wedge the harness
+	var id *spb.Uint128
+	var master string
+	edone := make(chan struct{})
+	go func() {
+		id, master = srv.VerifElection()
+		close(edone)
+	}()
+	select {
+	case <-edone:
+	case <-time.After(5 * time.Second):
+		note("final state: election state unreadable (lock held by a blocked goroutine)")
+		edone = nil
+	}
+	if edone == nil {
+		id, master = nil, ""
+	}
 	var st *ribdrv.St
 	var perr error
 	pdone := make(chan struct{})
